@@ -94,10 +94,10 @@ StoreStep(th, now) ==
          r == rq[th].route
          h == rq[th].host
      IN  /\ IF Limit >= p.size
-            THEN /\ LET s == SetRes(entries, total, r, h, p, now)
-                    IN  entries' = s[1] /\ total' = s[2]
-                 /\ last' = [last EXCEPT ![<<r, h>>] = Hit(p, now)]
-                 /\ op' = Op("set", r, h, p, 0, NoItem, FALSE)
+            THEN LET s == SetRes(entries, total, r, h, p, now)     \* (never panics: p.size <= Limit)
+                 IN  /\ entries' = s[1] /\ total' = s[2]
+                     /\ last' = IF s[3] THEN last ELSE [last EXCEPT ![<<r, h>>] = Hit(p, now)]
+                     /\ op' = Op("set", r, h, p, 0, NoItem, s[3])
             ELSE /\ UNCHANGED <<entries, total, last>>
                  /\ op' = Op("nostore", r, h, p, 0, NoItem, FALSE)
          /\ resp' = [resp EXCEPT ![th] = Resp(200, p, FALSE)]
